@@ -153,6 +153,10 @@ pub fn real_serve(bin : &str, base : &str, n : usize, seed : u64) -> Vec<Value>
         if rng.chance(1, 2) { ruler(bin, &dir, &["build"]); } else { ruler(bin, &dir, &["build", "a.out"]); }
         if rng.chance(1, 2) { ruler(bin, &dir, &["clean", "d.out"]); }
         std::fs::write(dir.join("secret.txt"), "outside the ruler directory\n").unwrap();
+        /* a directory under a well-formed hash name in the cache (what a displaced directory target leaves there): not a cached file */
+        let dname = ticket_of(b"a directory, not a file");
+        let _ = std::fs::create_dir_all(dir.join(".ruler/cache").join(&dname));
+        let _ = std::fs::write(dir.join(".ruler/cache").join(&dname).join("inner.txt"), "x");
         /* the first build may be restricted to one goal, so that some rules get their first history while the server is up */
         let partial = rng.chance(1, 2);
         /* what is on disk, decoded independently */
@@ -193,7 +197,7 @@ pub fn real_serve(bin : &str, base : &str, n : usize, seed : u64) -> Vec<Value>
         {
             ask("files", format!("/files/{}", name), json!({"wellformed" : b62_wellformed(name), "cached" : true, "want_sha" : ticket_of(bytes)}), &mut out);
         }
-        let absent = [ticket_of(b"never cached"), ticket_of(format!("x{}", k).as_bytes())];
+        let absent = [ticket_of(b"never cached"), ticket_of(format!("x{}", k).as_bytes()), ticket_of(b"a directory, not a file")];
         for name in absent.iter() { ask("files", format!("/files/{}", name), json!({"wellformed" : true, "cached" : cache.contains_key(name), "want_sha" : ""}), &mut out); }
         let some = cache.keys().next().cloned().unwrap_or(ticket_of(b"q"));
         let hostile = vec!["".to_string(), "abc".to_string(), format!("{}0", some), some[..42].to_string(), "Z".repeat(43), format!("{}!", &some[..42]),
